@@ -372,8 +372,74 @@ def writeset(cx, fn, var, loop, chan_var, law_names, guard_test=None, scalar_pat
     return n_col, n_rng
 
 
+TO_RFI_STEPS = [
+    ('no channels given means all channels', 'if channels is None:'),
+    ('... all channels', 'channels = range(data.shape[1])'),
+    ('a single channel and its settings are wrapped into one-element lists',
+     "if not (hasattr(channels, '__iter__') and not isinstance(channels, six.string_types)):"),
+    ('... channel', 'channels = [channels]'),
+    ('... amplification type', 'amplification_type = [amplification_type]'),
+    ('... gain', 'amplifier_gain = [amplifier_gain]'),
+    ('... resolution', 'resolution = [resolution]'),
+    ('missing amplification types: one None per channel', 'amplification_type = [None] * len(channels)'),
+    ('missing gains: one None per channel', 'amplifier_gain = [None] * len(channels)'),
+    ('missing resolutions: one None per channel', 'resolution = [None] * len(channels)'),
+    ('names become positions when the sample can translate them', "if hasattr(data, '_name_to_index'):"),
+    ('... translation', 'channels = data._name_to_index(channels)'),
+    ('work on a float copy', 'RV = data.copy().astype(np.float64)'),
+    ('channels and settings are paired in order', 'for CH, R, AT, AG in zip(channels, resolution, amplification_type, amplifier_gain):'),
+    ('amplification type of the sample for this channel', 'AT = data.amplification_type(CH)'),
+    ('linear amplifier iff the number of decades is 0', 'if AT[0] == 0:'),
+    ('gain of the sample for this channel', 'AG = data.amplifier_gain(CH)'),
+    ('unspecified gain is 1', 'AG = 1.0'),
+    ('unspecified gain is 1', 'AG = 1.0'),
+    ('linear law', 'TF = lambda x: x / AG'),
+    ('resolution of the sample for this channel', 'R = data.resolution(CH)'),
+    ('log law', 'TF = lambda x: AT[1] * 10 ** (AT[0] / float(R) * x)'),
+    ('events converted', 'RV[:, CH] = TF(RV[:, CH])'),
+    ('limits converted', 'RV._range[CH] = [TF(RV._range[CH][0]), TF(RV._range[CH][1])]'),
+    ('the copy is returned', 'return RV'),
+]
+
+TO_MEF_STEPS = [
+    ('no curve channels given: the curves are for all channels in order', 'if sc_channels is None:'),
+    ('... all channels (a 1-D array has one event)', 'sc_channels = range(data.shape[0]) if data.ndim == 1 else range(data.shape[1])'),
+    ('unequal numbers of curves and channels refused', 'if len(sc_channels) != len(sc_list):'),
+    ('curve channels become positions when the sample can translate them', "if hasattr(data, '_name_to_index'):"),
+    ('... translation', 'sc_channels = data._name_to_index(sc_channels)'),
+    ('no channels given: all channels with a curve', 'if channels is None:'),
+    ('... the curve channels', 'channels = sc_channels'),
+    ('a single requested channel is wrapped', "if not (hasattr(channels, '__iter__') and not isinstance(channels, six.string_types)):"),
+    ('... wrapped', 'channels = [channels]'),
+    ('requested channels become positions', "CI = data._name_to_index(channels) if hasattr(data, '_name_to_index') else channels"),
+    ('every requested channel is looked up among the curve channels', 'for CHI0, CHS in zip(CI, channels):'),
+    ('... refused when it has no curve', 'if CHI0 not in sc_channels:'),
+    ('work on a float copy', 'RV = data.copy().astype(np.float64)'),
+    ('curve channels and curves are paired in order', 'for CHI, SC in zip(sc_channels, sc_list):'),
+    ('channels that were not requested are skipped', 'if CHI not in CI:'),
+    ('events converted', 'RV[:, CHI] = SC(RV[:, CHI])'),
+    ('limits converted', 'RV._range[CHI] = [SC(RV._range[CHI][0]), SC(RV._range[CHI][1])]'),
+    ('the copy is returned', 'return RV'),
+]
+
+
+def to_rfi_steps(cx, fn):
+    from ..rules import inventory
+    return inventory(fn, 'STEPS', TO_RFI_STEPS, ['RV', 'CH', 'R', 'AT', 'AG', 'TF'],
+                     rebind_ok=('channels', 'amplification_type', 'amplifier_gain', 'resolution'))
+
+
+def to_mef_steps(cx, fn):
+    from ..rules import inventory
+    metas = {m: m for m in ['RV', 'CI', 'CHS', 'SC']}
+    metas['CHI'] = 'CHI'
+    metas['CHI0'] = 'CHI'
+    return inventory(fn, 'STEPS', TO_MEF_STEPS, metas, rebind_ok=('channels', 'sc_channels'))
+
+
 def to_rfi_all(cx, want=('SIB', 'FORMULA', 'NULLDEFAULT', 'WRITESET', 'SAMELAW', 'PAIR')):
     fn = Fn(cx, 'transform.to_rfi')
+    to_rfi_steps(cx, fn)
     loop, roles = to_rfi_roles(cx, fn)
     if 'SIB' in want:
         to_rfi_sib(cx, fn)
@@ -410,6 +476,7 @@ def _has(fn, name):
 
 def to_mef_all(cx, want=('GUARD', 'PAIR', 'WRITESET', 'SAMELAW')):
     fn = Fn(cx, 'transform.to_mef')
+    to_mef_steps(cx, fn)
     data = fn.params[0]
     loops = [(f, p) for f, p in zip_loops(fn) if [dotted(a) for _, a in p] == ['sc_channels', 'sc_list']]
     cx.need(len(loops) == 1, 'transform.to_mef: expected one loop over zip(sc_channels, sc_list)')
